@@ -60,8 +60,19 @@ def generate(rng, tier):
         relp = os.path.relpath(leaf, rootdir)
         files[t.root] = '#[path = "./../%s/%s"]\nmod respelled_twin;\n' % (os.path.basename(rootdir), relp) + files[t.root]
         respelled = [leaf]
+    # a module file that is a symbolic link to a file shared from another directory
+    linked = {}
+    if rng.chance(12) and leaves:
+        lf = rng.choice([f for f in leaves if f not in respelled] or leaves)
+        if lf not in respelled:
+            tgt = "shared/" + os.path.basename(lf).replace(".", "_real.", 1)
+            files[tgt] = files[lf]
+            files[lf] = {"symlink": os.path.relpath(tgt, os.path.dirname(lf))}
+            linked[lf] = tgt
     # line-ending / BOM variants: the original *bytes* must survive, not a normalised text
     for f in srcs:
+        if f in linked:
+            continue
         k = rng.below(100)
         if k < 12:
             files[f] = files[f].replace("\n", "\r\n")
@@ -71,7 +82,7 @@ def generate(rng, tier):
             files[f] = "\ufeff" + files[f].replace("\n", "\r\n")
         elif k < 30:
             files[f] = files[f].rstrip("\n")
-    pre = [f for f in srcs if rng.chance(25)]
+    pre = [f for f in srcs if rng.chance(25) and f not in linked]
     leftovers = {}
     if rng.chance(30):
         for f in rng.sample(srcs, 1 + rng.below(len(srcs))):
@@ -82,7 +93,7 @@ def generate(rng, tier):
             if which in ("tmp", "both"):
                 leftovers[stem + ".tmp"] = "// stale tmp\n"
     files.update(leftovers)
-    history = rng.chance(20)
+    history = rng.chance(20) and not linked
     cwd, root_arg = rng.choice([(".", t.root), (t.base, os.path.relpath(t.root, t.base)), (".", "$ROOT/" + t.root)])
     extra_args = rng.choice([[], [], ["-q"], ["--config", "max_width=%d" % rng.choice([60, 80, 100])]])
     return {
@@ -94,7 +105,7 @@ def generate(rng, tier):
         "cwd": cwd,
         "root_arg": root_arg,
         "extra_args": extra_args,
-        "hashseed": rng.below(1 << 32), "respelled": respelled,
+        "hashseed": rng.below(1 << 32), "respelled": respelled, "linked": linked,
     }
 
 
@@ -150,7 +161,10 @@ def execute(case):
                 return v
             fmt = {f: core.read_rel(sc.root, f) for f in srcs}
             v.probe("history:format-edit-format")
-        orig = {f: core.file_bytes(world["files"][f]) for f in srcs}
+        linked = case.get("linked") or {}
+        orig = {f: core.file_bytes(world["files"][linked.get(f, f)]) for f in srcs}
+        if linked:
+            v.probe("symlinked-module-file")
         R = [f for f in srcs if orig[f] != fmt[f]]
         allowed = set()
         for f in R:
@@ -219,7 +233,7 @@ def execute(case):
                 n = e.n or 0
                 for pos in sorted({0, 1, n // 2, max(0, n - 1)}):
                     plans.append(("crash_mid", ["* mut %d * crash_mid %d" % (k, pos)], False))
-                for pos in sorted({0, 1, n // 2}):
+                for pos in sorted(p for p in {0, 1, n // 2} if p < n):
                     plans.append(("torn", ["* mut %d * torn %d 28" % (k, pos)], False))
                 for en in WRITE_ERRNOS:
                     plans.append(("errno", ["* mut %d * errno %d" % (k, en)], False))
